@@ -215,6 +215,14 @@ let handle_line line =
         | SysRead -> "read" | SysUnlinkFinal -> "unlink_final" in
       let pr tag l = print_endline (tag ^ " " ^ String.concat " " (List.map name l)) in
       pr "SET" set_program; pr "GET" get_program; pr "DELETE" delete_program
+  | "SWRX" ->
+      (* SWRX <setting|U> <latency|N> <cancel|N> : all in ns *)
+      let opt t = if t = "U" || t = "N" then None else Some (z_of_dec t) in
+      let st = opt (next c) in let la = opt (next c) in let ca = opt (next c) in
+      let o = swr_predict { xp_setting = st; xp_latency = la; xp_cancel = ca } in
+      Printf.printf "P fg_latency=%s bg_calls=%s deadline=%s bg_end=%s cancelled=%b goroutines_left=%s\n"
+        (dec_of_z o.so_fg_latency) (dec_of_z o.so_bg_calls) (dec_of_z o.so_deadline) (dec_of_z o.so_request_end)
+        o.so_cancelled (dec_of_z o.so_goroutines_left)
   | "ENC" ->
       (* ENC U <encrypt> <encrypt_key> <env key>   |   ENC O <option key> *)
       let how = next c in
@@ -339,7 +347,7 @@ let monitor_mode cases_file obs_file =
            if not !unmodelled_any then begin
              let h = List.filter_map (fun (k, o) ->
                if k < Array.length reqs then Some (snd reqs.(k), o) else None) obs in
-             let vs = monitor_all (List.rev !case_script) h in
+             let vs = monitor_all !case_cfg (List.rev !case_script) h in
              List.iteri (fun k (hw, l) ->
                let buf = Buffer.create 128 in
                Buffer.add_string buf (Printf.sprintf "M %s %d how=%s" !case_id k (how_str hw));
